@@ -78,6 +78,12 @@ def run(ctx):
         for s in core.special(ver, rng, ctx.n(1200, 30000)):
             pfx, fields = obs.parse_fields(ver, s)
             objs.append((ver, pfx, dict(fields), s))
+    for _ in range(ctx.n(400, 8000)):
+        ver = rng.choice("234")
+        a = core.rand_assignment(ver, rng, p_absent=rng.choice([0.0, 0.3, 0.7]), p_nd=rng.choice([0.0, 0.2]))
+        for s in core.order_variants(ver, a, rng):
+            pfx, fields = obs.parse_fields(ver, s)
+            objs.append((ver, pfx, a, s))
     ctx.sample({"vector": objs[0][3]})
     orders = {v: ref_order(v) for v in "234"}
     for v in "234":
